@@ -48,6 +48,10 @@ Protocol (`c10 kind=<k> …`; every value is a decimal integer or a comma separa
   kind=com     ndim= maxlabel= label= size= lsize=
       -> `ok= n=`; `center_of_mass` with labels: totals[label], centers[label*ndim+j], labels[i] for
          every flat i < size (labels buffer has lsize elements).
+  kind=cooc    m0= m1= v= v2=
+      -> `ok= n=`; `cooccurence`: `res.at(v, v2)` on a result of shape (m0, m1) (skipped when v or v2 < 0).
+  kind=plusminus n= plus= minus=
+      -> `ok= n=`; `compute_plus_minus` on an n x n matrix with `px_plus_y` of `plus` and `px_minus_y` of `minus` elements.
   any other kind -> `error=unknown-kind-<k>`
 
 `term=1` means every `for (…; i != stop; ++i)` loop of the model left through its test within the
@@ -441,6 +445,17 @@ def comAccessesAt (nd maxlabel label lsize i : Int) : List Acc :=
 def comAccesses (nd maxlabel label size lsize : Int) : List Acc :=
   (rangeI size).flatMap fun i => comAccessesAt nd maxlabel label lsize i
 
+/-- `cooccurence` (`features/_texture.cpp:37`): `++res.at(val, val2)` on a result of shape `(m0, m1)`,
+    reached only when `val >= 0 && val2 >= 0`. -/
+def coocAccesses (m0 m1 v v2 : Int) : List Acc :=
+  if v < 0 ∨ v2 < 0 then [] else [Acc.mk v m0, Acc.mk v2 m1]
+
+/-- `compute_plus_minus` (`features/_texture.cpp:94-99`): `px_plus_y.at(i+j)`, `px_minus_y.at(|i-j|)`,
+    `p.at(i,j)` for `i, j < N`. -/
+def plusMinusAccesses (n plus minus : Int) : List Acc :=
+  (rangeI n).flatMap fun i => (rangeI n).flatMap fun j =>
+    [Acc.mk (i + j) plus, Acc.mk ((i - j).natAbs : Int) minus, Acc.mk i n, Acc.mk j n]
+
 /-! ## protocol -/
 
 def b2s (b : Bool) : String := if b then "1" else "0"
@@ -503,6 +518,8 @@ def handle (a : Args) : String :=
   | "foldl" => report (foldlAccesses (a.int "maxi") (a.int "label"))
   | "com" =>
     report (comAccesses (a.int "ndim") (a.int "maxlabel") (a.int "label") (a.int "size") (a.int "lsize"))
+  | "cooc" => report (coocAccesses (a.int "m0") (a.int "m1") (a.int "v") (a.int "v2"))
+  | "plusminus" => report (plusMinusAccesses (a.int "n") (a.int "plus") (a.int "minus"))
   | k => s!"error=unknown-kind-{k}"
 
 end Mahotas.C10
